@@ -4,6 +4,7 @@ import (
 	"bytes"
 	"encoding/json"
 	"fmt"
+	"io"
 	"path/filepath"
 	"regexp"
 	"strings"
@@ -28,7 +29,8 @@ type c09Replay struct {
 	Exts          []string `json:"exts"`
 	Route         string   `json:"route"` // output-dry | mkdir-md-dry | mkdir-root-dry
 	Extra         string   `json:"extra_options,omitempty"`
-	Color         bool     `json:"color,omitempty"` // colours switched on (a terminal): the report is judged with the SGR sequences removed
+	AfterFault    bool     `json:"after_a_failed_write,omitempty"` // the same call was made just before with a writer that took half of the report
+	Color         bool     `json:"color,omitempty"`                // colours switched on (a terminal): the report is judged with the SGR sequences removed
 }
 
 var sgr = regexp.MustCompile("\x1b\\[[0-9;]*m")
@@ -36,8 +38,16 @@ var sgr = regexp.MustCompile("\x1b\\[[0-9;]*m")
 // options that do not concern a Mkdir dry run
 var c09Extras = []string{"json", "yaml", "toml", "noiter", "strict", "nil", "strict,toml,nil"}
 
+// c09Dest, when set, takes the place of the buffer the report is written to (a writer that fails, for the call made
+// BEFORE the one that is judged)
+var c09Dest io.Writer
+
 func c09Dry(route, doc string, root *model.Node, exts []string, target string, extra ...string) (out string, err error, pan string) {
-	var buf bytes.Buffer
+	var bbuf bytes.Buffer
+	var buf io.Writer = &bbuf
+	if c09Dest != nil {
+		buf = c09Dest
+	}
 	opts := []gtree.Option{gtree.WithDryRun(), gtree.WithFileExtensions(exts), gtree.WithTargetDir(target)}
 	if len(extra) > 0 {
 		opts = append(opts, extraOpts(extra[0], "")...)
@@ -45,32 +55,32 @@ func c09Dry(route, doc string, root *model.Node, exts []string, target string, e
 	pan = sut.Guard(func() {
 		switch route {
 		case "output-dry":
-			err = gtree.OutputFromMarkdown(&buf, strings.NewReader(doc), opts...)
+			err = gtree.OutputFromMarkdown(buf, strings.NewReader(doc), opts...)
 		case "output-dry-alias":
-			err = gtree.Output(&buf, strings.NewReader(doc), opts...)
+			err = gtree.Output(buf, strings.NewReader(doc), opts...)
 		case "mkdir-md-dry-alias":
 			old := color.Output
-			color.Output = &buf
+			color.Output = buf
 			err = gtree.Mkdir(strings.NewReader(doc), opts...)
 			color.Output = old
 		case "mkdir-root-dry-alias":
 			old := color.Output
-			color.Output = &buf
+			color.Output = buf
 			err = gtree.MkdirProgrammably(sut.BuildRoot(root), opts...)
 			color.Output = old
 		case "mkdir-md-dry":
 			old := color.Output
-			color.Output = &buf
+			color.Output = buf
 			err = gtree.MkdirFromMarkdown(strings.NewReader(doc), opts...)
 			color.Output = old
 		case "mkdir-root-dry":
 			old := color.Output
-			color.Output = &buf
+			color.Output = buf
 			err = gtree.MkdirFromRoot(sut.BuildRoot(root), opts...)
 			color.Output = old
 		}
 	})
-	return buf.String(), err, pan
+	return bbuf.String(), err, pan
 }
 
 func c09Case(c *rep.Ctx, r c09Replay) {
@@ -89,6 +99,11 @@ func c09Case(c *rep.Ctx, r c09Replay) {
 		root = f[0]
 	}
 	extsGiven := append([]string{}, r.Exts...)
+	if r.AfterFault {
+		c09Dest = &failWriter{failAt: 1, short: true}
+		c09Dry(r.Route, doc, root, r.Exts, target, r.Extra)
+		c09Dest = nil
+	}
 	if r.Color {
 		color.NoColor = false
 	}
@@ -211,6 +226,7 @@ func init() {
 					if len(d) <= 3 {
 						c09Case(c, c09Replay{Kind: "c09", Depth: append([]int{}, d...), Names: names, Exts: ex, Route: rt, Color: true})
 						c09Case(c, c09Replay{Kind: "c09", Depth: append([]int{}, d...), Names: names, Exts: ex, Route: rt + "-alias"})
+						c09Case(c, c09Replay{Kind: "c09", Depth: append([]int{}, d...), Names: names, Exts: ex, Route: rt, AfterFault: true})
 					}
 					if len(d) <= 2 && rt != "output-dry" {
 						for _, x := range c09Extras {
